@@ -980,7 +980,7 @@ print()
 print('fn strncmp(s1: &str, s2: &str, n: usize) -> bool {')
 print('    let n1 = core::cmp::min(n, s1.len());')
 print('    let n2 = core::cmp::min(n, s2.len());')
-print('    &s1[..n1] == &s2[..n2]')
+print('    &s1.as_bytes()[..n1] == &s2.as_bytes()[..n2]')
 print('}')
 print()
 print('/// Converts a multi-subtag BCP 47 language tag to language tags.')
